@@ -146,6 +146,7 @@ type c13Upstream struct {
 	cond    *sync.Cond
 	hold    bool
 	delay   time.Duration
+	slow    map[int]time.Duration
 	arrived []int            // every id that reached the upstream
 	held    map[int]chan int // id -> release channel
 }
@@ -161,6 +162,15 @@ func (u *c13Upstream) reset(hold bool, delay time.Duration) {
 	u.hold, u.delay = hold, delay
 	u.arrived = nil
 	u.held = map[int]chan int{}
+	u.mu.Unlock()
+}
+
+func (u *c13Upstream) setSlow(id int, d time.Duration) {
+	u.mu.Lock()
+	if u.slow == nil {
+		u.slow = map[int]time.Duration{}
+	}
+	u.slow[id] = d
 	u.mu.Unlock()
 }
 
@@ -184,8 +194,17 @@ func (u *c13Upstream) ExchangeContext(ctx context.Context, q []byte) (*dnsmsg.Ms
 		u.held[id] = ch
 	}
 	delay := u.delay
+	slow := u.slow[id]
 	u.cond.Broadcast()
 	u.mu.Unlock()
+	if slow > 0 {
+		// a slow upstream (timed scripts): the answer takes longer than the listener's idle timeout
+		select {
+		case <-time.After(slow):
+		case <-ctx.Done():
+			return nil, ctx.Err()
+		}
+	}
 	if ch != nil {
 		select {
 		case <-ch:
